@@ -7,9 +7,18 @@ cp known_findings.json /tmp/kf_main.json
 git show wip-$id:known_findings.json > /tmp/kf_theirs.json
 git show $(git merge-base HEAD wip-$id):known_findings.json > /tmp/kf_base.json
 if [ -n "$(git status --porcelain)" ]; then git add -A; git commit -qm "WIP before merging $id"; fi
-git merge --no-edit -X theirs wip-$id 2>&1 | tail -3
+# no "-X theirs": it silently dropped the other builder's additions to a shared Props file once (C03S / C02B).
+# Props files are append-only (merge=union in .gitattributes); generated files are taken from main and regenerated below.
+git merge --no-commit --no-ff wip-$id 2>&1 | tail -3
+for f in $(git diff --name-only --diff-filter=U); do
+  case "$f" in
+    MANIFEST.json|evidence/*|lean/Ccp.lean|lean/Ccp/Drv/All.lean|lean/Ccp/Gen/*|DESIGN.md|known_findings.json|harness/fingerprints.json)
+      git checkout --ours -- "$f"; git add "$f"; echo "generated file $f: kept main's, regenerated below";;
+  esac
+done
+if [ -n "$(git diff --name-only --diff-filter=U)" ]; then echo "CONFLICTS (resolve by hand, then git commit and rerun the rest of this script by hand):"; git diff --name-only --diff-filter=U; exit 1; fi
+git commit -qm "Merge branch 'wip-$id'"
 if ! git merge-base --is-ancestor wip-$id HEAD; then echo "MERGE DID NOT HAPPEN"; exit 1; fi
-if git status --short | grep -q '^UU\|^AA'; then echo "CONFLICTS"; git status --short | grep '^UU\|^AA'; exit 1; fi
 python3 - <<'PY'
 import json
 a=json.load(open('/tmp/kf_main.json')); b=json.load(open('/tmp/kf_theirs.json'))
